@@ -7,6 +7,7 @@ import (
 	"go/types"
 	"os"
 	"path/filepath"
+	"runtime"
 	"runtime/debug"
 	"sort"
 	"strings"
@@ -145,6 +146,11 @@ func (fr *frame) wg(g *Term) *Term {
 }
 
 func (e *Engine) checkBudget() {
+	var ms runtime.MemStats
+	runtime.ReadMemStats(&ms)
+	if ms.HeapAlloc > 5<<30 {
+		abort("symbolic execution memory budget exceeded: %d MB heap after %d block instances, %d term nodes", ms.HeapAlloc>>20, e.blocksRun, nTerms)
+	}
 	if e.maxTerms > 0 && nTerms > e.maxTerms {
 		abort("symbolic execution budget exceeded: %d term nodes after %d block instances", nTerms, e.blocksRun)
 	}
